@@ -167,5 +167,19 @@ Definition e_text_ok (e_text : bytes -> bytes) : Prop :=
 Definition ne_load_outcome (r : ne_result) (e : N) : load_outcome :=
   match r with NEDone _ => LoadOk e | NEFail _ m => LoadErr m end.
 
+(* ---- what runAnalyzer hands to the engine: the fields of the RunContext literal (regenerated as source text, a local
+   name replaced by the expression that defines it) must forward the pass's package, type information, sizes and file set,
+   and the Go version parsed from -go *)
+Definition expected_run_context : list (bytes * bytes) :=
+  [([80; 107; 103], [112; 97; 115; 115; 46; 80; 107; 103])  (* Pkg: pass.Pkg *);
+   ([84; 121; 112; 101; 115], [112; 97; 115; 115; 46; 84; 121; 112; 101; 115; 73; 110; 102; 111])  (* Types: pass.TypesInfo *);
+   ([83; 105; 122; 101; 115], [112; 97; 115; 115; 46; 84; 121; 112; 101; 115; 83; 105; 122; 101; 115])  (* Sizes: pass.TypesSizes *);
+   ([70; 115; 101; 116], [112; 97; 115; 115; 46; 70; 115; 101; 116])  (* Fset: pass.Fset *);
+   ([71; 111; 86; 101; 114; 115; 105; 111; 110], [114; 117; 108; 101; 103; 117; 97; 114; 100; 46; 80; 97; 114; 115; 101; 71; 111; 86; 101; 114; 115; 105; 111; 110; 40; 102; 108; 97; 103; 71; 111; 86; 101; 114; 115; 105; 111; 110; 41])  (* GoVersion: ruleguard.ParseGoVersion(flagGoVersion) *)].
+
+Definition run_context_ok (g : list (bytes * bytes)) : bool :=
+  forallb (fun kv => existsb (fun kv' => bytes_eqb (fst kv) (fst kv') && bytes_eqb (snd kv) (snd kv')) g) expected_run_context
+  && forallb (fun kv => (List.length (filter (fun kv' => bytes_eqb (fst kv) (fst kv')) g) =? 1)%nat) g.
+
 Example ws_norm_ex : ws_norm [10;9;32;97;32;32;98;10;99;32] = [97;32;98;32;99].
 Proof. vm_compute. reflexivity. Qed.
